@@ -203,6 +203,14 @@ theorem map_absent_vs_empty_dst (nm : Bool) (msgLen : Nat) :
 /-! ### G1 / G2 addition and subtraction (the per-argument constants stay opaque in the loop lemmas:
 `n * <big literal>` must never be normalised by `omega`/the kernel) -/
 
+/-- a successful `bind` in `Except`: both halves succeeded (used instead of `split` in the loop lemmas) -/
+theorem bind_ok {α β : Type} {x : Except Err α} {f : α → Except Err β} {r : β}
+    (h : (x >>= f) = .ok r) : ∃ a, x = .ok a ∧ f a = .ok r := by
+  cases x with
+  | error e => simp [bind, Except.bind] at h
+  | ok a => exact ⟨a, rfl, h⟩
+
+
 theorem pointAddLoop_cost (maxCost : Nat) : ∀ (t : Tree) (cost : Nat) (total : Bls.G1) (cost' : Nat) (total' : Bls.G1),
     pointAddLoop maxCost t cost total = .ok (cost', total') →
     cost' = cost + (argList t).length * Gen.Crypto.pointAddCostPerArg := by
@@ -214,19 +222,18 @@ theorem pointAddLoop_cost (maxCost : Nat) : ∀ (t : Tree) (cost : Nat) (total :
   | pair f r _ ih =>
     intro cost total cost' total' h
     unfold pointAddLoop at h
-    crunch
+    obtain ⟨u, hu, h⟩ := bind_ok h
+    obtain ⟨p, hp, h⟩ := bind_ok h
     have := ih _ _ _ _ h
-    generalize Gen.Crypto.pointAddCostPerArg = c at *
     rw [this, argList, List.length_cons, Nat.succ_mul]
     omega
 
 theorem g1_add : CostOK opPointAdd Spec.CostCrypto.opG1Add := by
   intro flags maxCost args r h
   unfold opPointAdd at h
-  crunch
-  rename_i hl
+  obtain ⟨⟨c, t⟩, hl, h⟩ := bind_ok h
   have := pointAddLoop_cost _ _ _ _ _ _ hl
-  simp only [Except.ok.injEq] at h
+  simp only [pure, Except.pure, Except.ok.injEq] at h
   subst h
   simp only [Spec.CostCrypto.opG1Add, Spec.CostCrypto.g1Add, this, Gen.Crypto.pointAddBaseCost, Gen.Crypto.pointAddCostPerArg,
     Gen.Crypto.mallocCostPerByte]
@@ -242,19 +249,19 @@ theorem g1SubtractLoop_cost (maxCost : Nat) : ∀ (t : Tree) (cost : Nat) (total
   | pair f r _ ih =>
     intro cost total isFirst cost' total' h
     unfold g1SubtractLoop at h
-    crunch
+    obtain ⟨u, hu, h⟩ := bind_ok h
+    obtain ⟨p, hp, h⟩ := bind_ok h
     have := ih _ _ _ _ _ h
-    generalize Gen.Crypto.blsG1SubtractCostPerArg = c at *
     rw [this, argList, List.length_cons, Nat.succ_mul]
     omega
 
 theorem g1_subtract : CostOK opBlsG1Subtract Spec.CostCrypto.opG1Subtract := by
   intro flags maxCost args r h
   unfold opBlsG1Subtract at h
-  crunch
-  rename_i hl
+  obtain ⟨u, hu, h⟩ := bind_ok h
+  obtain ⟨⟨c, t⟩, hl, h⟩ := bind_ok h
   have := g1SubtractLoop_cost _ _ _ _ _ _ _ hl
-  simp only [Except.ok.injEq] at h
+  simp only [pure, Except.pure, Except.ok.injEq] at h
   subst h
   simp only [Spec.CostCrypto.opG1Subtract, Spec.CostCrypto.g1Subtract, this, Gen.Crypto.blsG1SubtractBaseCost, Gen.Crypto.blsG1SubtractCostPerArg,
     Gen.Crypto.mallocCostPerByte]
@@ -270,19 +277,19 @@ theorem g2AddLoop_cost (maxCost : Nat) : ∀ (t : Tree) (cost : Nat) (total : Bl
   | pair f r _ ih =>
     intro cost total cost' total' h
     unfold g2AddLoop at h
-    crunch
+    obtain ⟨u, hu, h⟩ := bind_ok h
+    obtain ⟨p, hp, h⟩ := bind_ok h
     have := ih _ _ _ _ h
-    generalize Gen.Crypto.blsG2AddCostPerArg = c at *
     rw [this, argList, List.length_cons, Nat.succ_mul]
     omega
 
 theorem g2_add : CostOK opBlsG2Add Spec.CostCrypto.opG2Add := by
   intro flags maxCost args r h
   unfold opBlsG2Add at h
-  crunch
-  rename_i hl
+  obtain ⟨u, hu, h⟩ := bind_ok h
+  obtain ⟨⟨c, t⟩, hl, h⟩ := bind_ok h
   have := g2AddLoop_cost _ _ _ _ _ _ hl
-  simp only [Except.ok.injEq] at h
+  simp only [pure, Except.pure, Except.ok.injEq] at h
   subst h
   simp only [Spec.CostCrypto.opG2Add, Spec.CostCrypto.g2Add, this, Gen.Crypto.blsG2AddBaseCost, Gen.Crypto.blsG2AddCostPerArg,
     Gen.Crypto.mallocCostPerByte]
@@ -298,21 +305,381 @@ theorem g2SubtractLoop_cost (maxCost : Nat) : ∀ (t : Tree) (cost : Nat) (total
   | pair f r _ ih =>
     intro cost total isFirst cost' total' h
     unfold g2SubtractLoop at h
-    crunch
+    obtain ⟨u, hu, h⟩ := bind_ok h
+    obtain ⟨p, hp, h⟩ := bind_ok h
     have := ih _ _ _ _ _ h
-    generalize Gen.Crypto.blsG2SubtractCostPerArg = c at *
     rw [this, argList, List.length_cons, Nat.succ_mul]
     omega
 
 theorem g2_subtract : CostOK opBlsG2Subtract Spec.CostCrypto.opG2Subtract := by
   intro flags maxCost args r h
   unfold opBlsG2Subtract at h
-  crunch
-  rename_i hl
+  obtain ⟨u, hu, h⟩ := bind_ok h
+  obtain ⟨⟨c, t⟩, hl, h⟩ := bind_ok h
   have := g2SubtractLoop_cost _ _ _ _ _ _ _ hl
-  simp only [Except.ok.injEq] at h
+  simp only [pure, Except.pure, Except.ok.injEq] at h
   subst h
   simp only [Spec.CostCrypto.opG2Subtract, Spec.CostCrypto.g2Subtract, this, Gen.Crypto.blsG2SubtractBaseCost, Gen.Crypto.blsG2SubtractCostPerArg,
     Gen.Crypto.mallocCostPerByte]
+
+/-! ### scalar multiplication, negation, pubkey_for_exp, coinid, secp -/
+
+theorem g1_multiply : CostOK opBlsG1Multiply Spec.CostCrypto.opG1Multiply := by
+  intro flags maxCost args r h
+  unfold opBlsG1Multiply at h
+  cases hv : getArgs 2 args "g1_multiply" with
+  | error e => simp [hv, bind, Except.bind] at h
+  | ok l =>
+    have hl := getArgs_ok hv
+    subst hl
+    simp only [hv] at h
+    generalize newCostModel flags = nm at h ⊢
+    cases nm <;> simp only [if_true, if_false, Bool.false_eq_true] at h
+    all_goals
+      crunch
+      all_goals
+        have := intAtom_ok ‹intAtom _ _ = .ok _›
+        simp only [Except.ok.injEq] at h
+        subst h
+        simp_all [Spec.CostCrypto.opG1Multiply, Spec.CostCrypto.g1Multiply,
+          Gen.Crypto.blsG1MultiplyBaseCost, Gen.Crypto.blsG1MultiplyCostPerByte,
+          Gen.Crypto.newBlsG1MultiplyBaseCost, Gen.Crypto.newBlsG1MultiplyCostPerByte, Gen.Crypto.mallocCostPerByte]
+
+theorem g2_multiply : CostOK opBlsG2Multiply Spec.CostCrypto.opG2Multiply := by
+  intro flags maxCost args r h
+  unfold opBlsG2Multiply at h
+  cases hv : getArgs 2 args "g2_multiply" with
+  | error e => simp [hv, bind, Except.bind] at h
+  | ok l =>
+    have hl := getArgs_ok hv
+    subst hl
+    simp only [hv] at h
+    generalize newCostModel flags = nm at h ⊢
+    cases nm <;> simp only [if_true, if_false, Bool.false_eq_true] at h
+    all_goals
+      crunch
+      all_goals
+        have := intAtom_ok ‹intAtom _ _ = .ok _›
+        simp only [Except.ok.injEq] at h
+        subst h
+        simp_all [Spec.CostCrypto.opG2Multiply, Spec.CostCrypto.g2Multiply,
+          Gen.Crypto.blsG2MultiplyBaseCost, Gen.Crypto.blsG2MultiplyCostPerByte,
+          Gen.Crypto.newBlsG2MultiplyBaseCost, Gen.Crypto.newBlsG2MultiplyCostPerByte, Gen.Crypto.mallocCostPerByte]
+
+theorem g1_negate : CostOK opBlsG1Negate Spec.CostCrypto.opG1Negate := by
+  intro flags maxCost args r h
+  unfold opBlsG1Negate at h
+  cases hv : getArgs 1 args "g1_negate" with
+  | error e => simp [hv, bind, Except.bind] at h
+  | ok l =>
+    simp only [hv] at h
+    crunch
+    all_goals
+      simp only [Except.ok.injEq, atomOf_iff] at *
+      subst h
+      simp_all [Spec.CostCrypto.opG1Negate, Spec.CostCrypto.g1Negate, flipSignBit_length,
+        Gen.Crypto.blsG1NegateBaseCost, Gen.Crypto.mallocCostPerByte]
+
+theorem g2_negate : CostOK opBlsG2Negate Spec.CostCrypto.opG2Negate := by
+  intro flags maxCost args r h
+  unfold opBlsG2Negate at h
+  cases hv : getArgs 1 args "g2_negate" with
+  | error e => simp [hv, bind, Except.bind] at h
+  | ok l =>
+    simp only [hv] at h
+    crunch
+    all_goals
+      simp only [Except.ok.injEq, atomOf_iff] at *
+      subst h
+      simp_all [Spec.CostCrypto.opG2Negate, Spec.CostCrypto.g2Negate, flipSignBit_length,
+        Gen.Crypto.blsG2NegateBaseCost, Gen.Crypto.mallocCostPerByte]
+
+theorem pubkey_for_exp : CostOK opPubkeyForExp Spec.CostCrypto.opPubkeyForExp := by
+  intro flags maxCost args r h
+  unfold opPubkeyForExp at h
+  cases hv : getArgs 1 args "pubkey_for_exp" with
+  | error e => simp [hv, bind, Except.bind] at h
+  | ok l =>
+    have hl := getArgs_ok hv
+    subst hl
+    simp only [hv] at h
+    crunch
+    all_goals
+      have := intAtom_ok ‹intAtom _ _ = .ok _›
+      simp only [Except.ok.injEq] at h
+      subst h
+      simp_all [Spec.CostCrypto.opPubkeyForExp, Spec.CostCrypto.pubkeyForExp,
+        Gen.Crypto.pubkeyBaseCost, Gen.Crypto.pubkeyCostPerByte, Gen.Crypto.mallocCostPerByte]
+
+theorem coinid : CostOK opCoinid Spec.CostCrypto.opCoinid := by
+  intro flags maxCost args r h
+  unfold opCoinid at h
+  cases hv : getArgs 3 args "coinid" with
+  | error e => simp [hv, bind, Except.bind] at h
+  | ok l =>
+    simp only [hv] at h
+    generalize newCostModel flags = nm at h ⊢
+    crunch
+    all_goals
+      simp only [Except.ok.injEq] at h
+      subst h
+      cases nm <;> simp_all [Spec.CostCrypto.opCoinid, Spec.CostCrypto.coinid,
+        Gen.Crypto.coinidCost, Gen.Crypto.newCoinidCost, Gen.Crypto.mallocCostPerByte]
+
+theorem secp256k1_verify : CostOK opSecp256k1Verify Spec.CostCrypto.opSecp256k1Verify := by
+  intro flags maxCost args r h
+  unfold opSecp256k1Verify at h
+  obtain ⟨u, hu, h⟩ := bind_ok h
+  cases hv : getArgs 3 args "secp256k1_verify" with
+  | error e => simp [hv, bind, Except.bind] at h
+  | ok l =>
+    simp only [hv] at h
+    crunch
+    all_goals
+      simp only [Except.ok.injEq] at h
+      subst h
+      simp only [Spec.CostCrypto.opSecp256k1Verify, Spec.CostCrypto.secp256k1Verify, Gen.Crypto.secp256k1VerifyCost]
+
+/-! ### keccak256 -/
+
+theorem sumLen_cons (a : Tree) (l : List Tree) : sumLen (a :: l) = len a + sumLen l := rfl
+
+theorem keccakLoop_cost (perArg perByte maxCost : Nat) : ∀ (t : Tree) (cost : Nat) (acc : Bytes) (cost' : Nat) (acc' : Bytes),
+    keccakLoop perArg perByte maxCost t cost acc = .ok (cost', acc') →
+    cost' = cost + (argList t).length * perArg + sumLen (argList t) * perByte := by
+  intro t
+  induction t with
+  | atom b =>
+    intro cost acc cost' acc' h
+    simp only [keccakLoop, Except.ok.injEq, Prod.mk.injEq] at h; simp [argList, h.1, sumLen, sum]
+  | pair f r _ ih =>
+    intro cost acc cost' acc' h
+    unfold keccakLoop at h
+    obtain ⟨blob, hb, h⟩ := bind_ok h
+    obtain ⟨u, hu, h⟩ := bind_ok h
+    have := ih _ _ _ _ h
+    have hf := (atomOf_iff _ _ _).1 hb
+    subst hf
+    rw [this, argList, List.length_cons, sumLen_cons, Nat.succ_mul, Nat.add_mul]
+    simp only [len]
+    omega
+
+open Hash.Keccak in
+theorem round_length (rc : UInt64) (s : List UInt64) : (round rc s).length = s.length := by
+  unfold round
+  split <;> rfl
+
+open Hash.Keccak in
+theorem keccakF_length (s : List UInt64) : (keccakF s).length = s.length := by
+  unfold keccakF
+  generalize RC = rcs
+  induction rcs generalizing s with
+  | nil => rfl
+  | cons rc t ih => simp only [List.foldl_cons, ih, round_length]
+
+open Hash.Keccak in
+theorem xorInto_length (s b : List UInt64) : (xorInto s b).length = s.length := by
+  fun_induction xorInto s b <;> simp_all [xorInto]
+
+open Hash.Keccak in
+theorem absorb_length (n : Nat) : ∀ (s : List UInt64) (bs : Bytes), (absorb n s bs).length = s.length := by
+  induction n with
+  | zero => intro s bs; rfl
+  | succ n ih =>
+    intro s bs
+    unfold absorb
+    split
+    · rw [ih, keccakF_length, xorInto_length]
+    · rfl
+
+open Hash.Keccak in
+theorem keccak256_length (msg : Bytes) : (Hash.keccak256 msg).length = 32 := by
+  unfold Hash.keccak256
+  simp only
+  generalize hs : absorb _ _ _ = st
+  have hl : st.length = 25 := by rw [← hs, absorb_length]; rfl
+  match st, hl with
+  | l0 :: l1 :: l2 :: l3 :: _, _ => simp [squeeze256, le64]
+
+theorem keccak256 : CostOK opKeccak256 Spec.CostCrypto.opKeccak256 := by
+  intro flags maxCost args r h
+  unfold opKeccak256 at h
+  generalize newCostModel flags = nm at h ⊢
+  cases nm <;> simp only [if_true, if_false, Bool.false_eq_true] at h
+  all_goals
+    generalize hl : keccakLoop _ _ _ _ _ _ = res at h
+    cases res with
+    | error e => cases h
+    | ok p =>
+      obtain ⟨c, msg⟩ := p
+      have := keccakLoop_cost _ _ _ _ _ _ _ _ hl
+      simp only [newAtomAndCost, Except.ok.injEq] at h
+      subst h
+      simp [Spec.CostCrypto.opKeccak256, Spec.CostCrypto.keccak256, this, keccak256_length,
+        Gen.Crypto.keccak256BaseCost, Gen.Crypto.keccak256CostPerArg, Gen.Crypto.keccak256CostPerByte,
+        Gen.Crypto.newKeccak256BaseCost, Gen.Crypto.newKeccak256CostPerArg, Gen.Crypto.newKeccak256CostPerByte,
+        Gen.Crypto.mallocCostPerByte]
+
+/-! ### pairings -/
+
+theorem pairingLoop_cost (cpa maxCost : Nat) : ∀ (fuel : Nat) (args : Tree) (cost : Nat) (items : List (Bls.G1 × Bls.G2))
+    (cost' : Nat) (items' : List (Bls.G1 × Bls.G2)),
+    pairingLoop cpa maxCost fuel args cost items = .ok (cost', items') →
+    cost' = cost + ((argList args).length / 2) * cpa := by
+  intro fuel
+  induction fuel with
+  | zero => intro args cost items cost' items' h; simp [pairingLoop] at h
+  | succ n ih =>
+    intro args cost items cost' items' h
+    unfold pairingLoop at h
+    by_cases hn : nilp args = true
+    · simp only [hn, if_true, Except.ok.injEq, Prod.mk.injEq] at h
+      simp [nilp_argList hn, h.1]
+    · simp only [hn, if_false, Bool.false_eq_true] at h
+      obtain ⟨u, hu, h⟩ := bind_ok h
+      obtain ⟨a, ha, h⟩ := bind_ok h
+      obtain ⟨g1, hg1, h⟩ := bind_ok h
+      obtain ⟨r1, hr1, h⟩ := bind_ok h
+      obtain ⟨b, hb, h⟩ := bind_ok h
+      obtain ⟨g2, hg2, h⟩ := bind_ok h
+      obtain ⟨r2, hr2, h⟩ := bind_ok h
+      have := ih _ _ _ _ _ h
+      have e1 := first_rest_ok ha hr1
+      have e2 := first_rest_ok hb hr2
+      subst e1; subst e2
+      have e3 : ((argList r2).length + 1 + 1) / 2 = (argList r2).length / 2 + 1 := by omega
+      rw [this, argList, argList, List.length_cons, List.length_cons, e3, Nat.succ_mul]
+      omega
+
+theorem pairing_identity (ap : List (Bls.G1 × Bls.G2) → Bool) :
+    CostOK (opBlsPairingIdentity ap) Spec.CostCrypto.opPairingIdentity := by
+  intro flags maxCost args r h
+  unfold opBlsPairingIdentity at h
+  generalize newCostModel flags = nm at h ⊢
+  cases nm <;> simp only [if_true, if_false, Bool.false_eq_true] at h
+  all_goals
+    obtain ⟨u, hu, h⟩ := bind_ok h
+    obtain ⟨⟨c, items⟩, hl, h⟩ := bind_ok h
+    have := pairingLoop_cost _ _ _ _ _ _ _ _ hl
+    cases hb : ap items with
+    | false => simp [hb, throw, throwThe, MonadExceptOf.throw] at h
+    | true =>
+      simp only [hb, Bool.not_true, Bool.false_eq_true, if_false, pure, Except.pure, Except.ok.injEq] at h
+      subst h
+      simp only [Spec.CostCrypto.opPairingIdentity, Spec.CostCrypto.pairingIdentity, this, if_true, if_false,
+        Bool.false_eq_true, Gen.Crypto.blsPairingBaseCost, Gen.Crypto.blsPairingCostPerArg,
+        Gen.Crypto.newBlsPairingBaseCost, Gen.Crypto.newBlsPairingCostPerArg]
+
+theorem verifyLoop_cost (cpa cpb cpd maxCost : Nat) : ∀ (fuel : Nat) (args : Tree) (cost : Nat) (items : List (Bls.G1 × Bytes))
+    (cost' : Nat) (items' : List (Bls.G1 × Bytes)),
+    verifyLoop cpa cpb cpd maxCost fuel args cost items = .ok (cost', items') →
+    cost' = cost + sum ((msgLens (argList args)).map (fun l => cpa + l * cpb + 43 * cpd)) := by
+  intro fuel
+  induction fuel with
+  | zero => intro args cost items cost' items' h; simp [verifyLoop] at h
+  | succ n ih =>
+    intro args cost items cost' items' h
+    unfold verifyLoop at h
+    by_cases hn : nilp args = true
+    · simp only [hn, if_true, Except.ok.injEq, Prod.mk.injEq] at h
+      simp [nilp_argList hn, h.1, msgLens, sum]
+    · simp only [hn, if_false, Bool.false_eq_true] at h
+      obtain ⟨a, ha, h⟩ := bind_ok h
+      obtain ⟨pk, hpk, h⟩ := bind_ok h
+      obtain ⟨r1, hr1, h⟩ := bind_ok h
+      obtain ⟨b, hb, h⟩ := bind_ok h
+      obtain ⟨msg, hmsg, h⟩ := bind_ok h
+      obtain ⟨r2, hr2, h⟩ := bind_ok h
+      obtain ⟨u, hu, h⟩ := bind_ok h
+      have := ih _ _ _ _ _ h
+      have e1 := first_rest_ok ha hr1
+      have e2 := first_rest_ok hb hr2
+      have e3 := (atomOf_iff _ _ _).1 hmsg
+      subst e1; subst e2; subst e3
+      rw [this, dstG2_len]
+      simp only [argList, msgLens, List.map_cons, sum, List.foldr_cons, len]
+      omega
+
+theorem bls_verify (av : Bls.G2 → List (Bls.G1 × Bytes) → Bool) :
+    CostOK (opBlsVerify av) Spec.CostCrypto.opBlsVerify := by
+  intro flags maxCost args r h
+  unfold opBlsVerify at h
+  generalize newCostModel flags = nm at h ⊢
+  cases nm <;> simp only [if_true, if_false, Bool.false_eq_true] at h
+  all_goals
+    obtain ⟨u, hu, h1⟩ := bind_ok h
+    obtain ⟨a, ha, h2⟩ := bind_ok h1
+    obtain ⟨sig, hsig, h3⟩ := bind_ok h2
+    obtain ⟨r1, hr1, h4⟩ := bind_ok h3
+    obtain ⟨⟨c, items⟩, hl, h5⟩ := bind_ok h4
+    have := verifyLoop_cost _ _ _ _ _ _ _ _ _ _ hl
+    have e1 := first_rest_ok ha hr1
+    clear h h1 h2 h3 h4
+    subst e1
+    cases hb : av sig items with
+    | false => simp [hb, throw, throwThe, MonadExceptOf.throw] at h5
+    | true =>
+      simp only [hb, Bool.not_true, Bool.false_eq_true, if_false, pure, Except.pure, Except.ok.injEq] at h5
+      subst h5
+      simp only [argList, Spec.CostCrypto.opBlsVerify, Spec.CostCrypto.blsVerify, this, if_true, if_false,
+        Bool.false_eq_true, Gen.Crypto.blsPairingBaseCost, Gen.Crypto.blsPairingCostPerArg,
+        Gen.Crypto.newBlsPairingBaseCost, Gen.Crypto.newBlsPairingCostPerArg,
+        Gen.Crypto.blsMapToG2CostPerByte, Gen.Crypto.blsMapToG2CostPerDstByte,
+        Gen.Crypto.newBlsMapToG2CostPerByte, Gen.Crypto.newBlsMapToG2CostPerDstByte]
+
+/-! ### secp256r1 (by hand: `split`/`cases` on the hypothesis would unfold the curve arithmetic) -/
+
+theorem getArgs3_shape {t : Tree} {name : String} {l : List Tree} (h : getArgs 3 t name = .ok l) :
+    ∃ a b c, l = [a, b, c] := by
+  unfold getArgs at h
+  split at h
+  · rename_i l' hm
+    cases h
+    match t, hm with
+    | .pair a (.pair b (.pair c (.atom _))), hm =>
+      simp only [matchArgs, Option.map] at hm
+      cases hm
+      exact ⟨a, b, c, rfl⟩
+    | .atom _, hm => simp [matchArgs] at hm
+    | .pair _ (.atom _), hm => simp [matchArgs] at hm
+    | .pair _ (.pair _ (.atom _)), hm => simp [matchArgs] at hm
+    | .pair _ (.pair _ (.pair _ (.pair _ _))), hm => simp [matchArgs] at hm
+  · cases h
+
+theorem secp256r1_verify : CostOK opSecp256r1Verify Spec.CostCrypto.opSecp256r1Verify := by
+  intro flags maxCost args r h
+  unfold opSecp256r1Verify at h
+  obtain ⟨u, hu, h1⟩ := bind_ok h
+  obtain ⟨l, hl, h2⟩ := bind_ok h1
+  obtain ⟨a, b, c, e⟩ := getArgs3_shape hl
+  subst e
+  simp only at h2
+  obtain ⟨pk, _, h3⟩ := bind_ok h2
+  generalize secp256r1.decodePublicKey pk = dq at h3
+  cases dq with
+  | none =>
+    obtain ⟨_, ht, _⟩ := bind_ok h3
+    simp [throw, throwThe, MonadExceptOf.throw] at ht
+  | some q =>
+    obtain ⟨q', _, h4⟩ := bind_ok h3
+    obtain ⟨m, _, h5⟩ := bind_ok h4
+    split at h5
+    · obtain ⟨_, ht, _⟩ := bind_ok h5
+      simp [throw, throwThe, MonadExceptOf.throw] at ht
+    · obtain ⟨sg, _, h6⟩ := bind_ok h5
+      generalize secp256r1.decodeSignature sg = ds at h6
+      cases ds with
+      | none =>
+        obtain ⟨_, ht, _⟩ := bind_ok h6
+        simp [throw, throwThe, MonadExceptOf.throw] at ht
+      | some s =>
+        obtain ⟨s', _, h7⟩ := bind_ok h6
+        generalize secp256r1.verifyPrehash q' m s' = ok at h7
+        cases ok with
+        | false => simp [throw, throwThe, MonadExceptOf.throw] at h7
+        | true =>
+          simp only [Bool.not_true, Bool.false_eq_true, if_false, pure, Except.pure, Except.ok.injEq] at h7
+          subst h7
+          simp only [Spec.CostCrypto.opSecp256r1Verify, Spec.CostCrypto.secp256r1Verify, Gen.Crypto.secp256r1VerifyCost]
 
 end Clvm.CryptoCost
